@@ -81,6 +81,7 @@ def _mk_classes():
                 raise HarnessBound(f"{self.name}: updated {self.n_update} times (bound {self.world.update_bound})")
             self.world.trace.append(("update", self.name, hs.mins(self.time), hs.mins(t), self.world.snapshot()))
             for n in self.ins:
+                self.world.trace.append(("pull-begin", self.name, n, hs.mins(t)))
                 try:
                     v = self.inputs[n].pull_data(t)
                     self.world.trace.append(
@@ -336,10 +337,34 @@ class RefModel:
                 return None
         return cur
 
-    def source_request(self, li, t):
-        """time that is actually requested from the source output when the consumer pulls at t
-        (only defined if no push-based adapter is on the link)"""
-        return self.required(li, t)
+    def source_request(self, li, t, snap):
+        """(root source component, output, time) that a consumer pull at t on link li must produce at the
+        time-stepped source output, following the chain (and pull-based components) upstream;
+        None if a push-based adapter answers from its buffer (no request reaches the source)."""
+        s, so, ch = self.spec["links"][li][0:3]
+        cur, init = t, self.init_time(li)
+        names = [a[0] for a in ch]
+        if "dpush" in names and "dpull" in names[: names.index("dpush")]:
+            return "skip"  # request history of a delay-to-pull adapter upstream of a delay-to-push is not modelled
+        for ai in range(len(ch) - 1, -1, -1):
+            a = ch[ai]
+            if a[0] in hs.PUSH_BASED:
+                return None
+            if a[0] == "dfix":
+                cur = max(cur - a[1], init)
+            elif a[0] == "dpull":
+                h = self.hist.setdefault((li, ai), [init])
+                cur = max(h[0] - a[2], init)
+            elif a[0] == "dpush":
+                if self.kind[s] != "model" or snap[s][1][so] is None:
+                    return "skip"
+                cur = min(cur, snap[s][1][so])
+        if self.kind[s] == "model":
+            return (s, so, cur)
+        ins = self.inlinks.get(s, [])
+        if len(ins) != 1:
+            return "skip"  # mergers pull several sources: not followed here
+        return self.source_request(ins[0], cur, snap)
 
     def pull(self, comp, t):
         """record a consumer pull at t on all input links of comp (propagating through pull-based comps)"""
@@ -391,9 +416,27 @@ def monitor(spec, trace, want=("C01", "C02")):
     m = RefModel(spec)
     m.connect_pulls()
     viol = []
-    stats = {"updates": 0, "non_min_updates": 0, "pulls": 0, "pull_fail": 0}
+    stats = {"updates": 0, "non_min_updates": 0, "pulls": 0, "pull_fail": 0, "requests_checked": 0}
+    inlink = {(l[3], l[4]): li for li, l in enumerate(spec["links"])}
+    cur_snap, cur_pull, gets, pending = None, None, [], {}
     for ev in trace:
+        if ev[0] == "pull-begin":
+            cur_pull, gets = ev, []
+            continue
+        if ev[0] == "get" and cur_pull is not None:
+            gets.append(ev)
+        if ev[0] == "pull" and cur_pull is not None and "C13" in want and ev[4] == "ok" and cur_snap is not None:
+            li = inlink.get((ev[1], ev[2]))
+            exp = pending.get((ev[1], ev[2]), "skip")
+            if exp != "skip":
+                got = [(g[1][0], g[1][1], g[2]) for g in gets]
+                want_g = [] if exp is None else [exp]
+                stats["requests_checked"] += 1
+                if got != want_g:
+                    viol.append(("C13", "source-request-time", f"{ev[1]}.{ev[2]} pull at {ev[3]}: source outputs asked {got}, the documented shifts give {want_g}; chain {spec['links'][li][2]}", ev[:4]))
+            cur_pull = None
         if ev[0] == "update":
+            cur_snap = ev[4]
             _e, x, tcur, tnext, snap = ev
             stats["updates"] += 1
             tmin = min(v[0] for v in snap.values())
@@ -407,6 +450,9 @@ def monitor(spec, trace, want=("C01", "C02")):
                 lag = m.lagging(x, tnext, snap)
                 if lag:
                     viol.append(("C01", "lagging-upstream", f"{x} updated for {tnext} while {sorted(set(lag))} have not published far enough; output times {{{', '.join(f'{n}:{v[1]}' for n, v in snap.items())}}}", ev[:4]))
+            if "C13" in want:
+                # what each pull of this update has to request from its source (before the pulls are recorded)
+                pending = {(x, l[4]): m.source_request(li, tnext, snap) for li, l in enumerate(spec["links"]) if l[3] == x}
             m.pull(x, tnext)
             m.k[x] += 1
         elif ev[0] == "pull":
